@@ -22,7 +22,7 @@ import (
 
 type bodyT struct {
 	Name string `json:"name"`
-	Raw  string `json:"raw"`
+	Raw  string `json:"-"`
 	// JSON reading
 	jsonObj      bool     // first JSON value is a well-formed object
 	jsonLevels   []string // string values of its "level" members, in order
@@ -61,7 +61,11 @@ func (r *request) String() string {
 	if r.Stream {
 		how = " (sent without a declared length)"
 	}
-	return fmt.Sprintf("%s %s [Content-Type: %q] body %q%s", r.Method, t, r.CT, r.Body.Raw, how)
+	body := r.Body.Raw
+	if len(body) > 300 {
+		body = fmt.Sprintf("%s...(%d bytes, %s)", body[:80], len(body), r.Body.Name)
+	}
+	return fmt.Sprintf("%s %s [Content-Type: %q] body %q%s", r.Method, t, r.CT, body, how)
 }
 
 const (
@@ -144,6 +148,18 @@ func fullBodies() []*bodyT {
 		formBody("form-out-of-range-form", "Level(9)"),
 		&bodyT{Name: "garbage-bytes", Raw: "\x00\xff}{"},
 	)
+	// large bodies (a size limit on the request body sits well above any body of ordinary size): the level
+	// first and last among a long run of other pairs / members, 1 KiB .. 70 KB
+	for _, size := range []int{1000, 1100, 5000, 70000} {
+		padF := strings.Repeat("p", size)
+		padJ := strings.Repeat("j", size)
+		bs = append(bs,
+			&bodyT{Name: fmt.Sprintf("form-level-first-then-%d-bytes", size), Raw: "level=error&pad=" + padF, formLevels: []string{"error"}},
+			&bodyT{Name: fmt.Sprintf("form-%d-bytes-then-level", size), Raw: "pad=" + padF + "&level=dpanic", formLevels: []string{"dpanic"}},
+			&bodyT{Name: fmt.Sprintf("json-level-first-then-%d-bytes", size), Raw: `{"level":"error","pad":"` + padJ + `"}`, jsonObj: true, jsonLevels: []string{"error"}},
+			&bodyT{Name: fmt.Sprintf("json-%d-bytes-then-level", size), Raw: `{"pad":"` + padJ + `","level":"dpanic"}`, jsonObj: true, jsonLevels: []string{"dpanic"}},
+		)
+	}
 	return bs
 }
 
